@@ -252,8 +252,11 @@ func c06Failing(q []c06Query) bool {
 }
 
 // c06Judge checks result (what the station stored / will dial for input covert under cfg) against
-// the property. served = the DNS queries answered while the station decided.
-func c06Judge(covert string, cfg c06Cfg, result string, served []c06Query) (v c06Verdict) {
+// the property. served = the DNS queries answered while the station decided. prior = queries answered
+// during earlier admissions on the same long-lived station (histories): the property does not forbid
+// a station from remembering an earlier answer for the same name, so such an answer also counts as
+// "answered" — the policy clauses are still judged against the configuration in force now.
+func c06Judge(covert string, cfg c06Cfg, result string, served []c06Query, prior ...c06Query) (v c06Verdict) {
 	add := func(c string) { v.Classes = append(v.Classes, c) }
 	pol, err := c06NewPolicy(cfg)
 	if err != nil {
@@ -459,6 +462,18 @@ func c06Judge(covert string, cfg c06Cfg, result string, served []c06Query) (v c0
 	for _, a := range append(first, later...) {
 		if a == c06Plain(ra) {
 			return
+		}
+	}
+	hn := strings.ToLower(strings.TrimSuffix(host, "."))
+	for _, q := range prior {
+		if q.Name != hn {
+			continue
+		}
+		for _, s := range q.Served {
+			if a, err := netip.ParseAddr(s); err == nil && (c06Plain(a) == c06Plain(ra) || (a == netip.IPv6Unspecified() && ra == netip.IPv4Unspecified())) {
+				add("out:name-answer-from-earlier-admission")
+				return
+			}
 		}
 	}
 	v.Key = "covert:unanswered-address"
